@@ -297,3 +297,24 @@ pub fn compare_maps(x: &ObsMap, y: &ObsMap) -> Cmp {
         Cmp::Equal
     }
 }
+
+/// C06's consequence clause: no decoded map holds a token whose source or name index does
+/// not resolve. Returns a description of the first offending token.
+pub fn unresolved_index(m: &DecodedMap) -> Option<String> {
+    fn in_map(sm: &SourceMap) -> Option<String> {
+        for (i, t) in sm.tokens().enumerate() {
+            if t.has_source() && t.get_source().is_none() {
+                return Some(format!("token #{i} has source id {} but the map has {} sources", t.get_src_id(), sm.get_source_count()));
+            }
+            if t.get_name_id() != !0 && t.get_name().is_none() {
+                return Some(format!("token #{i} has name id {} but the map has {} names", t.get_name_id(), sm.get_name_count()));
+            }
+        }
+        None
+    }
+    match m {
+        DecodedMap::Regular(sm) => in_map(sm),
+        DecodedMap::Hermes(h) => in_map(h),
+        DecodedMap::Index(i) => i.sections().filter_map(|s| s.get_sourcemap()).find_map(unresolved_index),
+    }
+}
